@@ -57,7 +57,19 @@ const SM9_U256_N_MINUS_ONE_BARRETT_MU: [u64; 4] = [
 proof fn mn_consts()
     ensures val4(SM9_N@) == N9(), val4(SM9_N_NEG@) == r256() - N9(), val4(SM9_N_MINUS_ONE@) == N9() - 1, val4(SM9_N_MINUS_TWO@) == N9() - 2,
         val4(SM9_ONE@) == 1,
+        val5(SM9_N_BARRETT_MU@) >= 0,
+        val5(SM9_N_BARRETT_MU@) * N9() <= mn_p512(), mn_p512() < val5(SM9_N_BARRETT_MU@) * N9() + N9(),
+        N9() * N9() <= (mn_p320() - val5(SM9_N_BARRETT_MU@) - 1) * mn_p192(),
+        (r256() + val4(SM9_U256_N_MINUS_ONE_BARRETT_MU@)) * (N9() - 1) <= mn_p512(),
+        mn_p512() < (r256() + val4(SM9_U256_N_MINUS_ONE_BARRETT_MU@)) * (N9() - 1) + (N9() - 1),
+        0 <= val4(SM9_U256_N_MINUS_ONE_BARRETT_MU@) < r256(),
 {
+    assert(val5(SM9_N_BARRETT_MU@) >= 0) by(compute);
+    assert(val5(SM9_N_BARRETT_MU@) * N9() <= mn_p512() && mn_p512() < val5(SM9_N_BARRETT_MU@) * N9() + N9()) by(compute);
+    assert(N9() * N9() <= (mn_p320() - val5(SM9_N_BARRETT_MU@) - 1) * mn_p192()) by(compute);
+    assert((r256() + val4(SM9_U256_N_MINUS_ONE_BARRETT_MU@)) * (N9() - 1) <= mn_p512()) by(compute);
+    assert(mn_p512() < (r256() + val4(SM9_U256_N_MINUS_ONE_BARRETT_MU@)) * (N9() - 1) + (N9() - 1)) by(compute);
+    assert(0 <= val4(SM9_U256_N_MINUS_ONE_BARRETT_MU@) < r256()) by(compute);
     assert(val4(SM9_N@) == N9() && val4(SM9_N_NEG@) == r256() - N9() && val4(SM9_N_MINUS_ONE@) == N9() - 1 && val4(SM9_N_MINUS_TWO@) == N9() - 2) by(compute);
     assert(val4(SM9_ONE@) == 1) by(compute);
 }
@@ -262,6 +274,203 @@ pub proof fn mn_bits(w: u64)
     assert(w < 0x8000000000000000u64 ==> (w << 1) == 2 * w) by(bit_vector);
     assert(w >= 0x8000000000000000u64 ==> (w << 1) == 2 * (w - 0x8000000000000000u64)) by(bit_vector);
 }
+// ---- Barrett reduction ----
+pub open spec fn mn_p192() -> int { 0x1_0000_0000_0000_0000int * 0x1_0000_0000_0000_0000int * 0x1_0000_0000_0000_0000int }
+pub open spec fn mn_p320() -> int { 0x1_0000_0000_0000_0000int * 0x1_0000_0000_0000_0000int * 0x1_0000_0000_0000_0000int * 0x1_0000_0000_0000_0000int * 0x1_0000_0000_0000_0000int }
+pub open spec fn mn_p512() -> int { 0x1_0000_0000_0000_0000int * 0x1_0000_0000_0000_0000int * 0x1_0000_0000_0000_0000int * 0x1_0000_0000_0000_0000int * 0x1_0000_0000_0000_0000int * 0x1_0000_0000_0000_0000int * 0x1_0000_0000_0000_0000int * 0x1_0000_0000_0000_0000int }
+// q' = floor(floor(z / A) * mu / B) with mu = floor(A*B / d):  q'*d <= z  and  (z - (q'+1)*d) * B < d * (z1 + mu + 1)
+pub proof fn mn_barrett(z: int, z1: int, mu: int, qp: int, d: int, aa: int, bb: int, mm: int)
+    requires d > 0, aa > 0, bb > 0, mm == aa * bb, z >= 0, z1 >= 0, mu >= 0,
+        mu * d <= mm, mm < mu * d + d,
+        z1 * aa <= z, z < z1 * aa + aa,
+        qp * bb <= z1 * mu, z1 * mu < qp * bb + bb,
+    ensures qp * d <= z, (z - (qp + 1) * d) * bb < d * (z1 + mu + 1)
+{
+    let h = z1 * mu;
+    assert(mm > 0) by(nonlinear_arith) requires mm == aa * bb, aa > 0, bb > 0;
+    assert(z1 * aa >= 0) by(nonlinear_arith) requires z1 >= 0, aa > 0;
+    assert(mu * d >= 0) by(nonlinear_arith) requires mu >= 0, d > 0;
+    assert(d * aa > 0) by(nonlinear_arith) requires aa > 0, d > 0;
+    // upper bound
+    assert((z1 * aa) * (mu * d) <= z * mm) by(nonlinear_arith) requires 0 <= z1 * aa <= z, 0 <= mu * d <= mm;
+    assert((qp * bb) * (d * aa) <= h * (d * aa)) by(nonlinear_arith) requires qp * bb <= h, d * aa > 0;
+    assert((qp * bb) * (d * aa) == (qp * d) * mm) by(nonlinear_arith) requires mm == aa * bb;
+    assert(h * (d * aa) == (z1 * aa) * (mu * d)) by(nonlinear_arith) requires h == z1 * mu;
+    assert(qp * d <= z) by(nonlinear_arith) requires (qp * d) * mm <= z * mm, mm > 0;
+    // lower bound
+    let x = z1 * aa + aa;
+    let y = mu * d + d;
+    assert(z * mm < x * y) by(nonlinear_arith) requires 0 <= z < x, 0 < mm < y;
+    assert(x * y == (aa * d) * (h + z1 + mu + 1)) by(nonlinear_arith) requires x == z1 * aa + aa, y == mu * d + d, h == z1 * mu;
+    let w = (qp + 1) * bb + z1 + mu + 1;
+    assert(aa * d > 0) by(nonlinear_arith) requires aa > 0, d > 0;
+    assert((qp + 1) * bb == qp * bb + bb) by(nonlinear_arith);
+    assert((aa * d) * (h + z1 + mu + 1) < (aa * d) * w) by(nonlinear_arith) requires h + z1 + mu + 1 < w, aa * d > 0;
+    assert((aa * d) * w == ((qp + 1) * d) * mm + (aa * d) * (z1 + mu + 1)) by(nonlinear_arith) requires w == (qp + 1) * bb + z1 + mu + 1, mm == aa * bb;
+    let lhs = (z - (qp + 1) * d) * bb;
+    let rhs = d * (z1 + mu + 1);
+    assert(z * mm - ((qp + 1) * d) * mm == aa * lhs) by(nonlinear_arith) requires mm == aa * bb, lhs == (z - (qp + 1) * d) * bb;
+    assert((aa * d) * (z1 + mu + 1) == aa * rhs) by(nonlinear_arith) requires rhs == d * (z1 + mu + 1);
+    assert(lhs < rhs) by(nonlinear_arith) requires aa * lhs < aa * rhs, aa > 0;
+}
+// the quotient estimate of mod_n_mul is q or q - 1
+pub proof fn mn_mul_quot(zz: int, z1: int, mu: int, qp: int, n: int)
+    requires 0 < n, 0 <= zz < n * n, mu >= 0, z1 >= 0,
+        mu * n <= mn_p512(), mn_p512() < mu * n + n, n * n <= (mn_p320() - mu - 1) * mn_p192(),
+        z1 * mn_p192() <= zz, zz < z1 * mn_p192() + mn_p192(),
+        qp * mn_p320() <= z1 * mu, z1 * mu < qp * mn_p320() + mn_p320(),
+    ensures 0 <= qp < n, 0 <= zz - qp * n < 2 * n
+{
+    assert(mn_p512() == mn_p192() * mn_p320() && mn_p192() > 0 && mn_p320() > 0) by(compute);
+    mn_barrett(zz, z1, mu, qp, n, mn_p192(), mn_p320(), mn_p512());
+    let a = mn_p192(); let b = mn_p320();
+    assert(z1 < b - mu - 1) by(nonlinear_arith) requires z1 * a < (b - mu - 1) * a, a > 0;
+    assert(n * (z1 + mu + 1) <= n * b) by(nonlinear_arith) requires z1 + mu + 1 <= b, n > 0;
+    let t = zz - (qp + 1) * n;
+    assert(t < n) by(nonlinear_arith) requires t * b < n * b, b > 0;
+    assert((qp + 1) * n == qp * n + n) by(nonlinear_arith);
+    assert(qp < n) by(nonlinear_arith) requires qp * n < n * n, n > 0;
+    assert(z1 * mu >= 0) by(nonlinear_arith) requires z1 >= 0, mu >= 0;
+    assert(qp >= 0) by(nonlinear_arith) requires qp * b + b > 0, b > 0;
+}
+// Horner value of 8 limbs
+pub open spec fn mn_h8(a: Seq<u64>) -> int {
+    a[0] as int + 0x1_0000_0000_0000_0000int * (a[1] as int + 0x1_0000_0000_0000_0000int * (a[2] as int + 0x1_0000_0000_0000_0000int * (a[3] as int + 0x1_0000_0000_0000_0000int * (a[4] as int + 0x1_0000_0000_0000_0000int * (a[5] as int + 0x1_0000_0000_0000_0000int * (a[6] as int + 0x1_0000_0000_0000_0000int * (a[7] as int)))))))
+}
+pub proof fn mn_val8_h8(a: Seq<u64>) requires a.len() == 8 ensures val8(a) == mn_h8(a)
+{
+    let x = val4(a.subrange(4, 8));
+    assert(r256() * x == 0x1_0000_0000_0000_0000int * (0x1_0000_0000_0000_0000int * (0x1_0000_0000_0000_0000int * (0x1_0000_0000_0000_0000int * x)))) by(nonlinear_arith);
+}
+pub open spec fn mn_lo3(a: Seq<u64>) -> int { a[0] as int + 0x1_0000_0000_0000_0000int * (a[1] as int + 0x1_0000_0000_0000_0000int * (a[2] as int)) }
+pub open spec fn mn_lo5(a: Seq<u64>) -> int { a[0] as int + 0x1_0000_0000_0000_0000int * (a[1] as int + 0x1_0000_0000_0000_0000int * (a[2] as int + 0x1_0000_0000_0000_0000int * (a[3] as int + 0x1_0000_0000_0000_0000int * (a[4] as int)))) }
+pub open spec fn mn_hi5(a: Seq<u64>) -> int { a[5] as int + 0x1_0000_0000_0000_0000int * (a[6] as int + 0x1_0000_0000_0000_0000int * (a[7] as int + 0x1_0000_0000_0000_0000int * (a[8] as int + 0x1_0000_0000_0000_0000int * (a[9] as int)))) }
+pub proof fn mn_split8(a: Seq<u64>) requires a.len() == 8
+    ensures val8(a) == mn_lo3(a) + mn_p192() * val5(a.subrange(3, 8)), 0 <= mn_lo3(a) < mn_p192(), val5(a.subrange(3, 8)) >= 0, val8(a) >= 0
+{
+    mn_val8_h8(a);
+    let x = val5(a.subrange(3, 8));
+    assert(mn_p192() * x == 0x1_0000_0000_0000_0000int * (0x1_0000_0000_0000_0000int * (0x1_0000_0000_0000_0000int * x))) by(nonlinear_arith);
+}
+pub proof fn mn_split10(a: Seq<u64>) requires a.len() == 10
+    ensures val10(a) == mn_lo5(a) + mn_p320() * mn_hi5(a), 0 <= mn_lo5(a) < mn_p320(), mn_hi5(a) >= 0
+{
+    let x = mn_hi5(a);
+    assert(mn_p320() * x == 0x1_0000_0000_0000_0000int * (0x1_0000_0000_0000_0000int * (0x1_0000_0000_0000_0000int * (0x1_0000_0000_0000_0000int * (0x1_0000_0000_0000_0000int * x))))) by(nonlinear_arith);
+}
+// the borrow chain of mod_n_mul computes the low 5 limbs of z - s; they are the whole difference when it lies in [0, 2^320)
+pub proof fn mn_sub5(z: Seq<u64>, s: Seq<u64>, r: Seq<u64>, s4n: int, o0: int, o1: int, o2: int, o3: int, k: int, rr: int)
+    requires z.len() == 8, s.len() == 8, r.len() == 4,
+        0 <= o0 <= 1, 0 <= o1 <= 1, 0 <= o2 <= 1, 0 <= o3 <= 1,
+        r[0] as int - o0 * 0x1_0000_0000_0000_0000int == z[0] as int - s[0] as int,
+        r[1] as int - o1 * 0x1_0000_0000_0000_0000int == z[1] as int - s[1] as int - o0,
+        r[2] as int - o2 * 0x1_0000_0000_0000_0000int == z[2] as int - s[2] as int - o1,
+        r[3] as int - o3 * 0x1_0000_0000_0000_0000int == z[3] as int - s[3] as int - o2,
+        s4n == z[4] as int - o3 - s[4] as int + k * 0x1_0000_0000_0000_0000int, 0 <= s4n < 0x1_0000_0000_0000_0000int,
+        rr == val8(z) - val8(s), 0 <= rr < mn_p320(),
+    ensures val4(r) + r256() * s4n == rr
+{
+    mn_val8_h8(z); mn_val8_h8(s);
+    let m = (z[5] as int - s[5] as int) + 0x1_0000_0000_0000_0000int * ((z[6] as int - s[6] as int) + 0x1_0000_0000_0000_0000int * (z[7] as int - s[7] as int)) - k;
+    let x = val4(r) + r256() * s4n;
+    assert(r256() * s4n == 0x1_0000_0000_0000_0000int * (0x1_0000_0000_0000_0000int * (0x1_0000_0000_0000_0000int * (0x1_0000_0000_0000_0000int * s4n)))) by(nonlinear_arith);
+    assert(mn_p320() * m == 0x1_0000_0000_0000_0000int * (0x1_0000_0000_0000_0000int * (0x1_0000_0000_0000_0000int * (0x1_0000_0000_0000_0000int * (0x1_0000_0000_0000_0000int * m))))) by(nonlinear_arith);
+    assert(0 <= x < mn_p320());
+    assert(rr - x == mn_p320() * m);
+    assert(m == 0) by(nonlinear_arith) requires -mn_p320() < mn_p320() * m < mn_p320();
+}
+// ---- mod_n_from_hash ----
+pub open spec fn mn_p128() -> int { 0x1_0000_0000_0000_0000int * 0x1_0000_0000_0000_0000int }
+pub proof fn mn_be_val_concat(s: Seq<u8>, t: Seq<u8>)
+    ensures be_val(s + t) == pow256n(t.len()) * be_val(s) + be_val(t)
+    decreases t.len()
+{
+    if t.len() == 0 {
+        assert(s + t =~= s);
+        assert(pow256n(0) == 1);
+    } else {
+        let p = pow256n((t.len() - 1) as nat);
+        assert(pow256n(t.len()) == 256 * p);
+        assert((s + t).drop_last() =~= s + t.drop_last());
+        assert((s + t).last() == t.last());
+        mn_be_val_concat(s, t.drop_last());
+        assert((256 * p) * be_val(s) == 256 * (p * be_val(s))) by(nonlinear_arith);
+    }
+}
+pub proof fn mn_be_val_40(b: Seq<u8>)
+    requires b.len() == 40
+    ensures be_val(b) == be_val(b.subrange(32, 40)) + 0x1_0000_0000_0000_0000int * (be_val(b.subrange(24, 32)) + 0x1_0000_0000_0000_0000int * (be_val(b.subrange(16, 24)) + 0x1_0000_0000_0000_0000int * (be_val(b.subrange(8, 16)) + 0x1_0000_0000_0000_0000int * be_val(b.subrange(0, 8)))))
+{
+    lemma_pow256n_32();
+    assert(b =~= b.subrange(0, 32) + b.subrange(32, 40));
+    mn_be_val_concat(b.subrange(0, 32), b.subrange(32, 40));
+    assert(b.subrange(0, 32) =~= b.subrange(0, 24) + b.subrange(24, 32));
+    mn_be_val_concat(b.subrange(0, 24), b.subrange(24, 32));
+    assert(b.subrange(0, 24) =~= b.subrange(0, 16) + b.subrange(16, 24));
+    mn_be_val_concat(b.subrange(0, 16), b.subrange(16, 24));
+    assert(b.subrange(0, 16) =~= b.subrange(0, 8) + b.subrange(8, 16));
+    mn_be_val_concat(b.subrange(0, 8), b.subrange(8, 16));
+}
+// quotient estimate on the top 128 bits: q' is q or q - 1, and z - q'*d stays below d + 2^194
+pub proof fn mn_hash_quot(zz: int, z1: int, mu: int, qp: int, d: int)
+    requires 0 < d < r256(), 0 <= zz, 0 <= mu < 2 * r256(), 0 <= z1 < mn_p128(),
+        mu * d <= mn_p512(), mn_p512() < mu * d + d,
+        z1 * mn_p192() <= zz, zz < z1 * mn_p192() + mn_p192(),
+        qp * mn_p320() <= z1 * mu, z1 * mu < qp * mn_p320() + mn_p320(),
+    ensures 0 <= qp, 0 <= zz - qp * d, zz - qp * d - d < 4 * mn_p192()
+{
+    assert(mn_p512() == mn_p192() * mn_p320() && mn_p192() > 0 && mn_p320() > 0) by(compute);
+    assert(r256() * (4 * r256()) == (4 * mn_p192()) * mn_p320() && mn_p128() + 2 * r256() + 1 <= 4 * r256()) by(compute);
+    mn_barrett(zz, z1, mu, qp, d, mn_p192(), mn_p320(), mn_p512());
+    let b = mn_p320();
+    let rr = r256();
+    let t = zz - (qp + 1) * d;
+    assert(d * (z1 + mu + 1) <= d * (4 * rr)) by(nonlinear_arith) requires z1 + mu + 1 <= 4 * rr, d > 0;
+    assert(d * (4 * rr) < rr * (4 * rr)) by(nonlinear_arith) requires 0 < d < rr;
+    assert(t < 4 * mn_p192()) by(nonlinear_arith) requires t * b < (4 * mn_p192()) * b, b > 0;
+    assert((qp + 1) * d == qp * d + d) by(nonlinear_arith);
+    assert(z1 * mu >= 0) by(nonlinear_arith) requires z1 >= 0, mu >= 0;
+    assert(qp >= 0) by(nonlinear_arith) requires qp * b + b > 0, b > 0;
+}
+// r = zt * mul (8 limbs, zt < 2^128); adding zt * 2^256 through limbs 4..6 gives zt * (2^256 + mul), whose limbs 5,6 are the quotient estimate
+pub proof fn mn_hash_mu(r: Seq<u64>, rn: Seq<u64>, z3: int, z4: int, mul: int, c1: int, ct: int, c2: int, t: int)
+    requires r.len() == 8, rn.len() == 8, 0 <= z3 < 0x1_0000_0000_0000_0000int, 0 <= z4 < 0x1_0000_0000_0000_0000int, 0 <= mul < r256(),
+        val8(r) == (z3 + 0x1_0000_0000_0000_0000int * z4) * mul,
+        0 <= c1 <= 1, 0 <= ct <= 1, 0 <= c2 <= 1, 0 <= t < 0x1_0000_0000_0000_0000int,
+        rn[0] == r[0], rn[1] == r[1], rn[2] == r[2], rn[3] == r[3],
+        rn[4] as int + c1 * 0x1_0000_0000_0000_0000int == r[4] as int + z3,
+        t + ct * 0x1_0000_0000_0000_0000int == z4 + c1,
+        rn[5] as int + c2 * 0x1_0000_0000_0000_0000int == r[5] as int + t,
+        rn[6] as int == c2 + ct,
+    ensures r[6] == 0, r[7] == 0,
+        mn_lo5(rn) + mn_p320() * (rn[5] as int + 0x1_0000_0000_0000_0000int * rn[6] as int) == (z3 + 0x1_0000_0000_0000_0000int * z4) * (r256() + mul),
+        0 <= mn_lo5(rn) < mn_p320(),
+{
+    let zt = z3 + 0x1_0000_0000_0000_0000int * z4;
+    mn_val8_h8(r);
+    assert(zt * mul < mn_p128() * r256()) by(nonlinear_arith) requires 0 <= zt < mn_p128(), 0 <= mul < r256();
+    assert(mn_p128() * r256() == 0x1_0000_0000_0000_0000int * 0x1_0000_0000_0000_0000int * 0x1_0000_0000_0000_0000int * 0x1_0000_0000_0000_0000int * 0x1_0000_0000_0000_0000int * 0x1_0000_0000_0000_0000int) by(compute);
+    assert(r[6] == 0 && r[7] == 0);
+    assert(zt * (r256() + mul) == zt * mul + r256() * zt) by(nonlinear_arith);
+    assert(r256() * zt == 0x1_0000_0000_0000_0000int * (0x1_0000_0000_0000_0000int * (0x1_0000_0000_0000_0000int * (0x1_0000_0000_0000_0000int * zt)))) by(nonlinear_arith);
+    let q = rn[5] as int + 0x1_0000_0000_0000_0000int * rn[6] as int;
+    assert(mn_p320() * q == 0x1_0000_0000_0000_0000int * (0x1_0000_0000_0000_0000int * (0x1_0000_0000_0000_0000int * (0x1_0000_0000_0000_0000int * (0x1_0000_0000_0000_0000int * q))))) by(nonlinear_arith);
+}
+// low four limbs of z - s are the whole difference when it lies in [0, 2^256)
+pub proof fn mn_sub4(zlo: int, z4: int, s: Seq<u64>, h: int, bo: int, rr: int)
+    requires s.len() == 8, 0 <= zlo < r256(), 0 <= h < r256(), 0 <= bo <= 1,
+        h - bo * r256() == zlo - val4(s.subrange(0, 4)),
+        rr == zlo + r256() * z4 - val8(s), 0 <= rr < r256(),
+    ensures h == rr
+{
+    let sh = val4(s.subrange(4, 8));
+    let r = r256();
+    let m = bo - z4 + sh;
+    assert(r * m == r * bo - r * z4 + r * sh) by(nonlinear_arith) requires m == bo - z4 + sh;
+    assert(bo * r == r * bo) by(nonlinear_arith);
+    assert(h - rr == r * m);
+    assert(m == 0) by(nonlinear_arith) requires -r < r * m < r;
+}
 //@section code gm-sm9/src/fields.rs
 fn mod_n_add(a: &U256, b: &U256) -> (r: U256)
     requires val4(a@) + val4(b@) < r256() + N9()
@@ -429,7 +638,6 @@ fn u320_mul(a: &[u64; 5], b: &[u64; 5]) -> (ret: [u64; 10])
     ret
 }
 
-#[verifier::external_body]
 fn mod_n_mul(a: &U256, b: &U256) -> (r: U256)
     requires val4(a@) < N9(), val4(b@) < N9()
     ensures val4(r@) == (val4(a@) * val4(b@)) % N9(),
@@ -445,35 +653,90 @@ fn mod_n_mul(a: &U256, b: &U256) -> (r: U256)
     
     let h1: [u64; 4] = [h[5], h[6], h[7], h[8]];
     let mut s = u256_mul(&h1, &SM9_N);
+    let ghost av = val4(a@);
+    let ghost bv = val4(b@);
+    let ghost zz = val8(z@);
+    let ghost qp = mn_hi5(h@);
+    let ghost s0 = s@;
+    proof {
+        mn_consts(); lemma_params9();
+        lemma_val4_bounds(a@); lemma_val4_bounds(b@); lemma_val4_bounds(h1@);
+        let n = N9();
+        let mu = val5(SM9_N_BARRETT_MU@);
+        assert(zz < n * n) by(nonlinear_arith) requires zz == av * bv, 0 <= av < n, 0 <= bv < n;
+        assert(zz >= 0) by(nonlinear_arith) requires zz == av * bv, 0 <= av, 0 <= bv;
+        mn_split8(z@);
+        assert(z1@ =~= z@.subrange(3, 8));
+        mn_split10(h@);
+        assert(val5(z1@) * mn_p192() == mn_p192() * val5(z1@) && qp * mn_p320() == mn_p320() * qp) by(nonlinear_arith);
+        mn_mul_quot(zz, val5(z1@), mu, qp, n);
+        // q' < N < 2^256: the fifth limb of the quotient estimate is zero
+        assert(qp == val4(h1@) + r256() * h[9] as int) by {
+            let x = h[9] as int;
+            assert(r256() * x == 0x1_0000_0000_0000_0000int * (0x1_0000_0000_0000_0000int * (0x1_0000_0000_0000_0000int * (0x1_0000_0000_0000_0000int * x)))) by(nonlinear_arith);
+        }
+        let h9 = h[9] as int;
+        assert(h9 == 0) by(nonlinear_arith) requires r256() * h9 < r256(), r256() > 0, h9 >= 0;
+        assert(SM9_N[0] * h[9] == 0);
+        assert(val8(s0) == qp * n);
+    }
 
     s[4] += SM9_N[0] * h[9];
+    proof { assert(s@ =~= s0); }
 
     let mut carry = 0;
     let (t0, overflow) = z[0].overflowing_sub(s[0]);
     r[0] = t0;
     carry = overflow as u64;
+    let ghost o0 = carry as int;
 
     let (t1, overflow) = z[1].overflowing_sub(carry);
     let (t1, overflow2) = t1.overflowing_sub(s[1]);
     r[1] = t1;
     carry = (overflow || overflow2) as u64;
+    let ghost o1 = carry as int;
 
     let (t2, overflow) = z[2].overflowing_sub(carry);
     let (t2, overflow2) = t2.overflowing_sub(s[2]);
     r[2] = t2;
     carry = (overflow || overflow2) as u64;
+    let ghost o2 = carry as int;
 
     let (t3, overflow) = z[3].overflowing_sub(carry);
     let (t3, overflow2) = t3.overflowing_sub(s[3]);
     r[3] = t3;
     carry = (overflow || overflow2) as u64;
+    let ghost o3 = carry as int;
 
     
     let (t4, overflow) = z[4].overflowing_sub(carry);
+    let ghost w: int = if (t4 as int) < (s[4] as int) { 1 } else { 0 };
+    let ghost k: int = (if overflow { 1int } else { 0 }) + w;
     s[4] = t4.wrapping_sub(s[4]);
+    let ghost rr = zz - qp * N9();
+    let ghost r0 = r@;
+    proof {
+        assert(mn_p320() > 2 * r256()) by(compute);
+        mn_sub5(z@, s0, r@, s[4] as int, o0, o1, o2, o3, k, rr);
+        lemma_val4_bounds(r@);
+    }
 
     if s[4] > 0 || u256_cmp(&r, &SM9_N) >= 0 {
         r = u256_sub(&r, &SM9_N).0;
+    }
+    proof {
+        lemma_val4_bounds(r@);
+        let n = N9();
+        let e: int = if s[4] > 0 || val4(r0) >= n { 1 } else { 0 };
+        let s4 = s[4] as int;
+        assert(s4 <= 1) by(nonlinear_arith) requires r256() * s4 <= rr, rr < 2 * r256(), r256() > 0;
+        assert(s4 == 1 ==> r256() * s4 == r256()) by(nonlinear_arith);
+        assert(s4 == 0 ==> r256() * s4 == 0) by(nonlinear_arith);
+        assert(val4(r@) == rr - e * n);
+        assert(0 <= val4(r@) < n);
+        assert(zz == val4(r@) + (qp + e) * n) by(nonlinear_arith) requires val4(r@) == zz - qp * n - e * n;
+        mn_mod_add_mult(val4(r@), qp + e, n);
+        mn_small_mod(val4(r@), n);
     }
     r
 }
@@ -550,19 +813,43 @@ fn mod_n_inv(a: &U256) -> (r: U256)
     mod_n_pow(a, &SM9_N_MINUS_TWO)
 }
 
-#[verifier::external_body]
 fn mod_n_from_hash(ha: &[u8]) -> (h: U256)
     requires ha@.len() >= 40
     ensures val4(h@) == be_val(ha@.subrange(0, 40)) % (N9() - 1) + 1,
 {
     let mut h = SM9_ONE;
     let mut z: [u64; 5] = [0; 5];
-    for i in 0..5 {
+    for i in 0..5
+        invariant ha@.len() >= 40,
+            forall|k: int| 5 - i <= k < 5 ==> z[k] as int == be_val(#[trigger] ha@.subrange(8 * (4 - k), 8 * (4 - k) + 8)),
+    {
         z[4 - i] = getu64(&ha[8 * i..]);
+        proof {
+            assert(ha@.subrange(8 * i as int, ha@.len() as int).subrange(0, 8) =~= ha@.subrange(8 * (4 - (4 - i as int)), 8 * (4 - (4 - i as int)) + 8));
+        }
+    }
+    let ghost zz = val5(z@);
+    let ghost d = N9() - 1;
+    proof {
+        let b = ha@.subrange(0, 40);
+        mn_be_val_40(b);
+        assert(b.subrange(0, 8) =~= ha@.subrange(8 * (4 - 4), 8 * (4 - 4) + 8));
+        assert(b.subrange(8, 16) =~= ha@.subrange(8 * (4 - 3), 8 * (4 - 3) + 8));
+        assert(b.subrange(16, 24) =~= ha@.subrange(8 * (4 - 2), 8 * (4 - 2) + 8));
+        assert(b.subrange(24, 32) =~= ha@.subrange(8 * (4 - 1), 8 * (4 - 1) + 8));
+        assert(b.subrange(32, 40) =~= ha@.subrange(8 * (4 - 0), 8 * (4 - 0) + 8));
+        assert(zz == be_val(b));
     }
 
     let z1 = [z[3], z[4], 0, 0];
     let mut r = u256_mul(&z1, &SM9_U256_N_MINUS_ONE_BARRETT_MU);
+    let ghost ra = r@;
+    let ghost zt = z[3] as int + 0x1_0000_0000_0000_0000int * z[4] as int;
+    let ghost mul = val4(SM9_U256_N_MINUS_ONE_BARRETT_MU@);
+    proof {
+        mn_consts(); lemma_params9();
+        assert(val4(z1@) == zt);
+    }
 
     let (sum1, carry1) = r[4].overflowing_add(z[3]);
     r[4] = sum1;
@@ -570,17 +857,55 @@ fn mod_n_from_hash(ha: &[u8]) -> (h: U256)
     let (sum2, carry2) = r[5].overflowing_add(t);
     r[5] = sum2;
     r[6] = carry2 as u64 + carry_t as u64;
+    let ghost qp = r[5] as int + 0x1_0000_0000_0000_0000int * r[6] as int;
+    proof {
+        mn_hash_mu(ra, r@, z[3] as int, z[4] as int, mul, if carry1 { 1int } else { 0 }, if carry_t { 1int } else { 0 }, if carry2 { 1int } else { 0 }, t as int);
+        let mu = r256() + mul;
+        assert(zz == mn_lo3(z@) + mn_p192() * zt && 0 <= mn_lo3(z@) < mn_p192()) by {
+            assert(mn_p192() * zt == 0x1_0000_0000_0000_0000int * (0x1_0000_0000_0000_0000int * (0x1_0000_0000_0000_0000int * zt))) by(nonlinear_arith);
+        }
+        assert(zt * mn_p192() == mn_p192() * zt && qp * mn_p320() == mn_p320() * qp) by(nonlinear_arith);
+        assert(0 <= zt < mn_p128());
+        mn_hash_quot(zz, zt, mu, qp, d);
+    }
 
     r = u256_mul(&[r[5], r[6], 0, 0], &SM9_N_MINUS_ONE);
+    let ghost rb = r@;
+    proof {
+        assert(val8(rb) == qp * d);
+    }
     h = u256_sub(&[z[0], z[1], z[2], z[3]], &[r[0], r[1], r[2], r[3]]).0;
+    let ghost rr = zz - qp * d;
+    proof {
+        assert(4 * mn_p192() + N9() - 1 < r256()) by(compute);
+        lemma_val4_bounds(h@);
+        let zlo = z[0] as int + 0x1_0000_0000_0000_0000int * (z[1] as int + 0x1_0000_0000_0000_0000int * (z[2] as int + 0x1_0000_0000_0000_0000int * (z[3] as int)));
+        let x = z[4] as int;
+        assert(r256() * x == 0x1_0000_0000_0000_0000int * (0x1_0000_0000_0000_0000int * (0x1_0000_0000_0000_0000int * (0x1_0000_0000_0000_0000int * x)))) by(nonlinear_arith);
+        assert(rb.subrange(0, 4) =~= seq![r[0], r[1], r[2], r[3]]);
+        let bo: int = val4(h@) - (zlo - val4(rb.subrange(0, 4)));
+        assert(bo == 0 || bo == r256());
+        let bi: int = if bo == 0 { 0 } else { 1 };
+        assert(bi * r256() == bo) by(nonlinear_arith) requires (bi == 0 && bo == 0) || (bi == 1 && bo == r256());
+        mn_sub4(zlo, x, rb, val4(h@), bi, rr);
+    }
     
     if u256_cmp(&h, &SM9_N_MINUS_ONE) >= 0 {
         h = u256_sub(&h, &SM9_N_MINUS_ONE).0;
     }
+    proof {
+        lemma_val4_bounds(h@);
+        let e: int = if rr >= d { 1 } else { 0 };
+        assert(val4(h@) == rr - e * d);
+        assert(0 <= val4(h@) < d);
+        assert(zz == val4(h@) + (qp + e) * d) by(nonlinear_arith) requires val4(h@) == zz - qp * d - e * d;
+        mn_mod_add_mult(val4(h@), qp + e, d);
+        mn_small_mod(val4(h@), d);
+        mn_small_mod(val4(h@) + 1, N9());
+    }
     h = mod_n_add(&h, &SM9_ONE);
     h
 }
-
 fn getu64(bytes: &[u8]) -> (r: u64)
     requires bytes@.len() >= 8
     ensures r as int == be_val(bytes@.subrange(0, 8)),
